@@ -202,6 +202,25 @@ func genC19(r *Rng) []bOp {
 	}
 	mk()
 	n := r.Range(3, 12)
+	if r.Intn(5) == 0 {
+		// sibling family: two views of equal length over the two halves of one blob (they share its mutex), one written over the other
+		k := r.Range(1, 6)
+		d := make([]byte, 2*k+r.Intn(2))
+		for i := range d {
+			d[i] = byte(10 + i)
+		}
+		ops[0] = bOp{kind: "new", data: d}
+		lens[0] = len(d)
+		ops = append(ops, bOp{kind: "view", b: 0, x: 0, y: int64(k)}, bOp{kind: "view", b: 0, x: int64(k), y: int64(2 * k)})
+		nblobs += 2
+		lens = append(lens, k, k)
+		if r.Intn(2) == 0 {
+			ops = append(ops, bOp{kind: "set", b: 1, src: 2, x: 0})
+		} else {
+			ops = append(ops, bOp{kind: "set", b: 2, src: 1, x: 0})
+		}
+		n = len(ops) + r.Range(1, 5)
+	}
 	arg := func(l int) int64 { // -2 .. l+2, biased to the boundaries
 		switch r.Pick(5, 2, 2, 1) {
 		case 0:
@@ -242,7 +261,18 @@ func genC19(r *Rng) []bOp {
 			}
 		case 3:
 			src := r.Intn(nblobs)
-			ops = append(ops, bOp{kind: "set", b: b, src: src, x: arg(l)})
+			x := arg(l)
+			if r.Intn(3) == 0 {
+				// aim at another blob of the same (shadow) length, written at offset 0
+				for t := 0; t < nblobs; t++ {
+					c := (src + t) % nblobs
+					if c != b && lens[c] == l {
+						src, x = c, 0
+						break
+					}
+				}
+			}
+			ops = append(ops, bOp{kind: "set", b: b, src: src, x: x})
 		case 4:
 			x := int64(r.Range(-1, 5))
 			ops = append(ops, bOp{kind: "grow", b: b, x: x})
